@@ -10,6 +10,13 @@ import (
 	"github.com/pkg/errors"
 )
 
+// targetBitsAreValid returns false when the size byte of the compact target bits is less than the
+// three bytes of the mantissa. Such a target is less than 2^16, which no header hash can meet, and
+// the compact conversion functions index past the end of their buffer for some of those values.
+func targetBitsAreValid(bits uint32) bool {
+	return (bits >> 24) >= 3
+}
+
 func (b Branch) Target(ctx context.Context, height int) (*big.Int, error) {
 
 	// NOTE: Assume 2017 difficulty adjustment is active --ce
